@@ -259,12 +259,26 @@ func ruleErrPropagate(c *Ctx, r *R) {
 					continue
 				}
 				if phi, ok := rv.(*ssa.Phi); ok {
+					// a result variable (`var err error; for err == nil { ...; err = f(ctx, i) }; return err`): the value returned
+					// is a merge - possibly through the loop header's own merge - that E flows into
 					has := false
-					for _, ed := range phi.Edges {
-						if ed == e {
-							has = true
+					seenPhi := map[*ssa.Phi]bool{}
+					var walk func(p *ssa.Phi, d int)
+					walk = func(p *ssa.Phi, d int) {
+						if seenPhi[p] || d > 4 {
+							return
+						}
+						seenPhi[p] = true
+						for _, ed := range p.Edges {
+							if ed == e {
+								has = true
+							}
+							if p2, ok := ed.(*ssa.Phi); ok {
+								walk(p2, d+1)
+							}
 						}
 					}
+					walk(phi, 0)
 					if has {
 						continue
 					}
